@@ -31,6 +31,23 @@ CHECKS = {
              "tracked client's batching mode. Sampling of a few-thousand-combination space x timing.",
         note="Trusts: SimLoop; the judge of a 'well-formed answer' is an independent structural check; malformed/error answers may raise any exception.",
         technique=TECH + "; ordering/absence oracle over the recorded write history"),
+    "C05": dict(
+        level="exploration", ref="DESIGN.md section 5 C05",
+        text="The real StdioClient reader runs on a FakeProcess whose stdout is cut into short reads: every single cut position of fixed "
+             "base streams is swept systematically (all pairs on a short stream in the thorough tier), plus seeded streams of valid and junk "
+             "lines (22 junk classes, LF/CRLF, 1..4-byte UTF-8, U+0085/2028/2029) with random, one-byte and targeted cuts (inside a UTF-8 "
+             "sequence, inside CRLF, right after LF, >64 KiB lines). Oracle: independent NDJSON splitter + JSON-RPC 2.0 grammar; the result must "
+             "be identical for every chunking. Six permissive-parser junk classes are known finding F-C05-1.",
+        note="Trusts: the pipe model (a read returns one piece the child wrote); kernel behaviour is modelled, not observed.",
+        technique=TECH + "; short-read fault injection at the process seam, reference-model/metamorphic oracle"),
+    "C06": dict(
+        level="exploration", ref="DESIGN.md section 5 C06",
+        text="1..3 producer tasks push typed messages, dicts, pre-serialised strings (compact, pretty-printed, newline-terminated) and "
+             "unserialisable objects through the real stdin writer while the fake child reads slowly / stalls (back-pressure, capacities 1 B..64 KiB) "
+             "or closes its stdin / dies mid-stream (fault family). Oracle: reference encoder over the order the write stream accepted the items; "
+             "whole-line, in-order, content-equal, nothing for unserialisable items, stdin closed after the stream is closed and drained.",
+        note="Trusts: the modelled drain/high-water semantics of asyncio's StreamWriter; fault family is judged on whole lines only.",
+        technique=TECH + "; back-pressure and child-death injection at the process seam, reference-encoder oracle"),
     "C14": dict(
         level="exploration", ref="DESIGN.md section 5 C14",
         text="Seeded search over placements of {token cancel, matching response, deadline} on a ~1 ms virtual grid around poll edges, with "
